@@ -31,7 +31,7 @@ ToSet(q) == {q[k] : k \in 1..Len(q)}
 
 ClausesOf ==
   [C18 |-> {"C18_ReturnBy", "C18_Iff", "C18_SucceedsWhenKnown", "C18_NoEarlyGiveUp", "C18_CacheFirst", "C18_FromLiveSrv",
-            "C18_FromLiveTxt", "C18_AddressesOfHost", "C18_AllFromCache", "C18_NoException"},
+            "C18_FromLiveTxt", "C18_AddressesOfHost", "C18_AllFromCache", "C18_NoException", "C18_QuThenQm", "C18_OnlyMissingQuestions"},
    C13 |-> {"C13_LookupQuestions", "C13_LookupKnownAnswers", "C13_QuThenQm", "C13_LookupSchedule", "C13_LookupSpacing",
             "C13_LookupShape"}]
 Own(clause) == \/ D.own = "ALL" \/ clause \in {"Trace_Malformed", "C15_NoException"} \/ clause \in ClausesOf[D.own]
@@ -143,6 +143,9 @@ OnOpportunity(st, e) ==
   IN IF ~lk.on THEN st
      ELSE IF Bad(t # lk.nextAt, "C13_LookupSchedule") THEN Fail(st, "C13_LookupSchedule")
      ELSE IF Bad(sent /\ \E x \in ToSet(lk.pend[1].qs) : x.qu # qu, "C13_QuThenQm") THEN Fail(st, "C13_QuThenQm")
+     \* C18 states the same progression, and that questions whose answers are held are left out (C13 adds the suppression rules)
+     ELSE IF Bad(sent /\ \E x \in ToSet(lk.pend[1].qs) : x.qu # qu, "C18_QuThenQm") THEN Fail(st, "C18_QuThenQm")
+     ELSE IF Bad(\E q \in obs : q <= 2 /\ Ka(st, q, t) # {}, "C18_OnlyMissingQuestions") THEN Fail(st, "C18_OnlyMissingQuestions")
      ELSE IF Bad(obs # qsExp, "C13_LookupQuestions") THEN Fail(st, "C13_LookupQuestions")
      ELSE IF Bad(sent /\ \E x \in ToSet(lk.pend[1].qs) : x.who # QWho(st, x.q) \/ x.cls # 1, "C13_LookupQuestions") THEN Fail(st, "C13_LookupQuestions")
      ELSE IF Bad(sent /\ {<<p[1], p[2]>> : p \in ToSet(lk.pend[1].ka)} # ExpectedKa(st, t), "C13_LookupKnownAnswers") THEN Fail(st, "C13_LookupKnownAnswers")
@@ -166,7 +169,7 @@ OnRet(st, e) ==
      ELSE IF Bad(lk.fc /\ (lk.sentAny \/ lk.nq > 0 \/ ~e.ok \/ t # lk.t0), "C18_CacheFirst") THEN Fail(st, "C18_CacheFirst")
      ELSE IF Bad(e.ok /\ (lk.srv = 0 \/ e.server # lk.server \/ e.port # D.srvinfo[lk.srv][1] \/ e.prio # D.srvinfo[lk.srv][2]
                           \/ e.weight # D.srvinfo[lk.srv][3]), "C18_FromLiveSrv") THEN Fail(st, "C18_FromLiveSrv")
-     ELSE IF Bad(e.text # lk.txt, "C18_FromLiveTxt") THEN Fail(st, "C18_FromLiveTxt")
+     ELSE IF Bad(~e.nofields /\ e.text # lk.txt, "C18_FromLiveTxt") THEN Fail(st, "C18_FromLiveTxt")
      ELSE IF Bad(~(ToSet(e.addrs) \subseteq validAddrs), "C18_AddressesOfHost") THEN Fail(st, "C18_AddressesOfHost")
      ELSE IF Bad(lk.fc /\ ToSet(e.addrs) # lk.addrs, "C18_AllFromCache") THEN Fail(st, "C18_AllFromCache")
      ELSE [st EXCEPT !.lk = NoLookup, !.objk = [srv |-> lk.srv, txt |-> lk.txt, addrs |-> ToSet(e.addrs)]]
